@@ -381,31 +381,33 @@ def contig_seqs(segs, seqs):
 COMP = {"A": "T", "C": "G", "G": "C", "T": "A"}
 
 
-def spell(fields, segs, seqs):
-    """independent oracle: spell path[start:end] of a GAF record (stable or unstable), in read
-    orientation, from the node sequences"""
+def spell(fields, segs, seqs=None):
+    """independent oracle: path[start:end] of a GAF record (stable or unstable) in read orientation, spelled as the list of
+    (contig, position, strand) of its bases - exact, so two different loci can never look equal by coincidence of letters"""
     path = fields[5]
     strand = fields[4]
     ps, pe = int(fields[7]), int(fields[8])
-    cs = contig_seqs(segs, seqs)
     import re
+
+    def rc(tokens):
+        return [(c, i, "-" if o == "+" else "+") for (c, i, o) in reversed(tokens)]
 
     tk = re.findall(r"([<>])([^<>]+)", path)
     if not tk:
-        # bare contig
-        s = "".join(cs[path][i] for i in range(ps, pe))
-        return s if strand == "+" else revcomp(s)
-    whole = ""
+        s = [(path, i, "+") for i in range(ps, pe)]
+        return s if strand == "+" else rc(s)
+    whole = []
     for o, t in tk:
         if ":" in t:
             c, rng = t.split(":")
             a, b = rng.split("-")
-            piece = "".join(cs[c][i] for i in range(int(a), int(b)))
+            piece = [(c, i, "+") for i in range(int(a), int(b))]
         else:
-            piece = seqs[t]
-        whole += piece if o == ">" else revcomp(piece)
+            sn, so, ln, sr = segs[t]
+            piece = [(sn, i, "+") for i in range(so, so + ln)]
+        whole += piece if o == ">" else rc(piece)
     s = whole[ps:pe]
-    return s if strand == "+" else revcomp(s)
+    return s if strand == "+" else rc(s)
 
 
 def real_view(wd, gfa, lines, fmt, name):
